@@ -217,6 +217,12 @@ def boundary_inputs():
                            pad_stmt * big + '  }\n  return x;\n}\nprint(f());\n')
     out['big_break'] = ('fn f() {\n  let x = 0;\n  while true {\n    if x == 0 { x = 1; } else { break; }\n' + pad_stmt * big +
                         '  }\n  return x;\n}\nprint(f());\n')
+    out['labels_70000'] = 'let x = 0; ' + 'if x == 0 { x = x + 1; } else { x = x + 2; } ' * 35000 + 'print(x);'
+    out['labels_fn_70000'] = 'fn f() { let x = 0; ' + 'while x < 0 { x = x + 1; } ' * 40000 + 'return x; } print(f());'
+    refs = ' + '.join(['x'] * 300)
+    out['enclosing_refs_300'] = 'fn a() { let x = 1; fn b() { fn c() { return ' + refs + '; } return c(); } return b(); }\nprint(a());'
+    out['enclosing_refs_lambda_300'] = 'fn a() { let x = 1; return || || ' + refs + '; }\nprint(a()()());'
+    out['direct_refs_300'] = 'fn a() { let x = 1; return || ' + refs + '; }\nprint(a()());'
     for name, text in [('unterminated_interp', 'print("a${");'), ('unterminated_interp2', 'print("a${"b${'),
                        ('unterminated_str', 'print("abc'), ('nul_bytes', 'print(1);\x00\x00print(2);'),
                        ('bom', '﻿print(1);'), ('invalid_escape', 'print("\\q");'),
@@ -237,7 +243,8 @@ EXPECT = {
     'big_if_false': ['0'], 'big_else': ['7', '9000'], 'big_while_skipped': ['0'],
     'big_and_false': ['false', '25000'], 'big_or_true': ['5', '25000'], 'big_ternary': ['2', '25000'],
     'big_ternary_else': ['2', '25000'], 'big_for': ['18000'], 'big_catch': ['9000'], 'big_continue': ['18000'],
-    'big_break': ['9001'],
+    'big_break': ['9001'], 'labels_70000': ['69999'], 'labels_fn_70000': ['0'], 'enclosing_refs_300': ['300'],
+    'enclosing_refs_lambda_300': ['300'], 'direct_refs_300': ['300'],
     'deep_parens': ['1'], 'deep_unary': ['1'], 'deep_not': ['true'], 'deep_blocks': ['1'], 'deep_while': ['1'],
     'deep_calls': ['1'], 'deep_ternary': ['1'], 'deep_binary_right': ['257'], 'long_binary_left': ['5001'],
     'locals_254': ['0'], 'block_locals_254': ['1'], 'loop_locals_254': ['1'], 'module_syms_300': ['299'],
